@@ -15,6 +15,15 @@ type PropSpec struct {
 }
 
 var properties = map[string]PropSpec{
+	"C03": {
+		Level: "other",
+		Explanation: "wip",
+		NotDecided: "wip",
+		Run: func(c *Ctx) {
+			c.ruleInv()
+			c.ruleCapInv()
+		},
+	},
 	"C08": {
 		Level: "other",
 		Explanation: "The panic-site census of the whole package, for every argument value. R-BND: every index, slice and string-index expression (about 110 non-trivial sites) is proved in range on every path by linear entailment (Fourier-Motzkin) from the path's branch facts; user integers are unconstrained 64-bit values and a sum/difference/product is related to its operands only when the facts prove it cannot overflow (so MinInt/MaxInt are covered); loop counters get inductive bounds; helper functions returning lengths are inlined by return case; preconditions of unexported workers are checked at every call site and exported entry points may have none; element writes and user-element reads on a stack need index >= 1, so the configuration slot can never be written or returned through an index. R-NIL / R-REFL / R-CANIF: every nil-dereference and every panicking reflect.Value call is discharged likewise (typed nil pointers of any depth, zero Stacks/Conditions, zero reflect.Values, unexported struct fields). R-TA: every unchecked type assertion is dominated by the matching type test. R-DIV: no division by a possibly-zero integer. No explicit panic and no goroutine exist (R-BASE).",
